@@ -1317,7 +1317,11 @@ func (s *PrintCtx) appendError(err error) {
 func (s *PrintCtx) appendValue(val any) {
 	switch z := val.(type) {
 	case nil:
-		s.pcAppendStringValue("<nil>")
+		if s.jsonMode {
+			s.pcAppendStringValue("null") // <nil> is not a JSON value
+		} else {
+			s.pcAppendStringValue("<nil>")
+		}
 
 	case ObjectSerializer:
 		// pc.useColor = !s.noColor
